@@ -247,10 +247,83 @@ def run(ctx):
         # the weights are thickness x overlap fractions
         if isinstance(wt, ast.Name):
             wd = [st for st in iter_stmts(isf.body) if isinstance(st, ast.Assign) and norm(st.targets[0]) == wt.id]
-            if wd and isinstance(wd[-1].value, ast.BinOp) and isinstance(wd[-1].value.op, ast.Mult) and 'coeff' in norm(wd[-1].value) and 'dp' in norm(wd[-1].value):
-                ctx.ok('R-NORMSAME', 'mass weights', w, norm(wd[-1]))
+            full = _paths.subst(wd[-1].value, _paths.dominating_env(isf, wd[-1])) if wd else None
+            sc_calls = [c for c in ast.walk(full) if isinstance(c, ast.Call) and (dotted(c.func) or '').split('.')[-1] == 'sigma2coeff' and len(c.args) >= 2] if full is not None else []
+            diffs = [c for c in ast.walk(full) if isinstance(c, ast.Call) and (dotted(c.func) or '').split('.')[-1] == 'diff' and c.args] if full is not None else []
+            if wd and isinstance(full, ast.BinOp) and isinstance(full.op, ast.Mult) and sc_calls and diffs:
+                def base_name(e):
+                    while isinstance(e, (ast.Call, ast.Attribute, ast.Subscript, ast.UnaryOp)):
+                        e = e.func if isinstance(e, ast.Call) else (e.operand if isinstance(e, ast.UnaryOp) else e.value)
+                    return e.id if isinstance(e, ast.Name) else None
+                srcn, tgtn = base_name(sc_calls[0].args[0]), base_name(sc_calls[0].args[1])
+                dn = base_name(diffs[0].args[0])
+                # along which axis of the (source, target) matrix is the thickness broadcast?
+                sub = [x for x in ast.walk(full) if isinstance(x, ast.Subscript) and any(y is diffs[0] for y in ast.walk(x.value)) and isinstance(x.slice, ast.Tuple)]
+                shape = norm(sub[0].slice) if sub else None
+                if dn == srcn and shape in ('(slice(None, None, None), None)', ':, None', '(:, None)') or (dn == srcn and sub and isinstance(sub[0].slice.elts[0], ast.Slice)
+                                                                                                            and isinstance(sub[0].slice.elts[1], ast.Constant) and sub[0].slice.elts[1].value is None):
+                    ctx.ok('R-NORMSAME', 'mass weights', w, 'thickness of the source layers (%s) along the source axis x overlap fraction' % dn)
+                elif dn is not None and dn == tgtn or (dn == srcn and sub and isinstance(sub[0].slice.elts[0], ast.Constant) and sub[0].slice.elts[0].value is None):
+                    ctx.violation(Finding('R-NORMSAME', 'cmaqfiles/_ioapi.py', 'ioapi_base.interpSigma', wd[-1], 'the overlap fractions are weighted by the thickness of the %s layers along the %s axis: the factor '
+                                          'cancels against the normaliser, so each new layer is the average of the overlap fractions instead of the pressure-thickness-weighted average (the column '
+                                          'integral is not conserved on unequal layers)' % ('target' if dn == tgtn else 'source', 'target')), oid='mass weights')
+                else:
+                    ctx.undec('R-NORMSAME', 'mass weights', w, 'thickness factor %s not traced to the source edges' % norm(diffs[0])[:40])
             else:
                 ctx.undec('R-NORMSAME', 'mass weights', w, 'weights are not spelled as layer thickness x overlap fraction')
+    # ---- R-SIGMADEF: sigma of the source edges = (p - ptop) / (psurface - ptop) in both GEOS-Chem implementations
+    ctx.rule('R-SIGMADEF', 'bpch / gcnc interpSigma: source sigma = (edge pressure - top) / (surface pressure - top), the same top in numerator and denominator')
+    nsd = 0
+    for rp_, q_ in (('geoschemfiles/_bpch.py', 'bpch_base.interpSigma'), ('geoschemfiles/_gcnc.py', 'gcnc_base.interpSigma')):
+        m_ = src.mod(rp_)
+        if q_ not in m_.functions:
+            cand = [k for k in m_.functions if k.endswith('.interpSigma')]
+            if not cand:
+                raise AnalysisError('anchor vanished: interpSigma in %s' % rp_)
+            q_ = cand[0]
+        f_ = m_.functions[q_]
+        wq = 'src/PseudoNetCDF/%s %s' % (rp_, q_)
+        for st in iter_stmts(f_.body):
+            if not (isinstance(st, ast.Assign) and isinstance(st.value, ast.BinOp) and isinstance(st.value.op, ast.Div) and isinstance(st.value.left, ast.BinOp)
+                    and isinstance(st.value.left.op, ast.Sub) and 'vgtop' in norm(st.value.left.right)):
+                continue
+            nsd += 1
+            numr, den = st.value.left, st.value.right
+            good = isinstance(den, ast.BinOp) and isinstance(den.op, ast.Sub) and norm(den.right) == norm(numr.right) and isinstance(den.left, ast.Subscript) \
+                and norm(den.left.value) == norm(numr.left) and norm(den.left.slice) == '0'
+            if good:
+                ctx.ok('R-SIGMADEF', q_, wq, norm(st.value))
+            else:
+                ctx.violation(Finding('R-SIGMADEF', rp_, q_, st, 'the source sigma is %s: the denominator has to be the surface pressure minus the same top (%s[0] - %s); otherwise the source '
+                                      'levels are scaled against another pressure range than the requested ones and a file interpolated to its own levels changes'
+                                      % (norm(st.value), norm(numr.left), norm(numr.right))), oid=q_)
+    ctx.floor('sigma definitions judged by R-SIGMADEF', nsd, 2)
+    # ---- R-COORDSEL: interpDimension takes the old coordinate from the variable the caller named
+    ctx.rule('R-COORDSEL', 'interpDimension: with coordkey given, the old coordinate is self.variables[coordkey] (the dimension-named variable only when coordkey is None)')
+    fm_ = src.mod('core/_files.py')
+    idf = fm_.func('PseudoNetCDFFile.interpDimension')
+    wid = 'src/PseudoNetCDF/core/_files.py PseudoNetCDFFile.interpDimension'
+    ncs, badcs = 0, None
+    for pth in _paths.enumerate_paths(idf.body, limit=20000, relevant=_paths.relevance(idf.body, [st for st in iter_stmts(idf.body) if isinstance(st, ast.Assign)
+                                                                                                     and any(isinstance(x, ast.Subscript) and norm(x.value) == 'self.variables'
+                                                                                                             and norm(x.slice) in ('coordkey', 'dimkey') for x in ast.walk(st.value))])):
+        pol = pth.polarity('coordkey is None')
+        if pol is None or pth.exit[0] == 'raise':
+            continue
+        reads = [norm(x.slice) for st in pth.stmts if isinstance(st, ast.Assign) for x in ast.walk(st.value)
+                 if isinstance(x, ast.Subscript) and norm(x.value) == 'self.variables' and norm(x.slice) in ('coordkey', 'dimkey')]
+        if not reads:
+            continue
+        ncs += 1
+        if pol is False and reads[0] != 'coordkey':
+            badcs = badcs or [st for st in pth.stmts if isinstance(st, ast.Assign) and 'self.variables[dimkey]' in norm(st.value)][0]
+    if badcs is not None:
+        ctx.violation(Finding('R-COORDSEL', 'core/_files.py', 'PseudoNetCDFFile.interpDimension', badcs, 'on a path where coordkey is given the old coordinate is read from self.variables[dimkey]: a variable '
+                              'that happens to be named like the dimension (an index variable) replaces the coordinate the caller named, and the weights are built from the wrong values'))
+    elif ncs:
+        ctx.ok('R-COORDSEL', 'old coordinate', wid, '%d paths: coordkey given -> self.variables[coordkey]' % ncs)
+    else:
+        ctx.undec('R-COORDSEL', 'old coordinate', wid, 'selection of the old coordinate not found')
     # ---- overlap fractions
     sc = cu.func('sigma2coeff')
     w = 'src/PseudoNetCDF/%s sigma2coeff' % CU
